@@ -5,6 +5,7 @@ From Coq Require Import List NArith Bool Arith Sorted.
 From Coq Require Import Strings.Byte.
 Require Import BS.Bytes BS.Common BS.Api BS.Layout BS.Format BS.FormatFacts BS.Spec BS.SpecStep BS.Sections.
 Require Import BS.FS BS.FSFacts BS.Meta BS.MetaFacts BS.Header BS.Reader BS.ReaderFacts BS.Index BS.Data BS.DataFacts BS.Seek BS.SeekFacts BS.Series BS.SeriesFacts BS.ReadAllFacts.
+Require Import BS.World BS.Judge BS.JudgeFacts.
 Import ListNotations.
 
 (* (I refines S) FULL STATEMENT, proved: for an open series holding any well-formed list l (any payload size,
@@ -30,3 +31,16 @@ Proof. exact seek_ok. Qed.
 Print Assumptions C02_seek.
 (* the invariant RepH is established by create and kept by appends (props/C03.v, props/C01.v);
    partial: re-establishing it on reopen is C04 (not proved). *)
+
+(* (I refines S, at the level of the public API) every session - create a series in an empty directory, then ANY sequence of
+   appends (accepted or refused), full and bounded reads, first-n reads, line counts and accessor calls, with any arguments
+   the types admit - run on the model of the library is ACCEPTED BY THE JUDGE, the extracted specification that decides
+   whether an observed behaviour satisfies the properties: every answer of the model is in the set the judge allows, after
+   every step the files of the model are byte for byte the files the judge expects, and the judge stays determined. On this
+   fragment a judge failure on the implementation is therefore a deviation of the code from its model. *)
+Theorem C02_session_accepted_by_judge : forall (name:list byte) (p:nat) (hdr:list byte),
+  (len (params_to_text BSgen.Consts.version (N.of_nat p) ++ hdr) <= 65535)%N ->
+  forall cb ops, Forall sess_op ops ->
+  accepted World.init_world judge_init (ONew name (N.of_nat p) hdr [] cb :: ops).
+Proof. exact session_accepted. Qed.
+Print Assumptions C02_session_accepted_by_judge.
